@@ -283,6 +283,10 @@ def auto_discharge(e, pv):
             c = const_eval(b, t['args'][1])
             if c is not None and 2 <= c <= 36:
                 return ('const-radix', 'radix is the constant %d' % c)
+        if n in ('std::string::String::insert', 'std::string::String::insert_str') and len(t['args']) == 3:
+            c = const_eval(b, t['args'][1])
+            if c == 0:
+                return ('const-index-0', 'insertion at byte offset 0, which is in range and a char boundary for every string')
         if n in ('std::ops::Index::index', 'std::ops::IndexMut::index_mut') and len(t['args']) == 2 and re.search(r'(Vec<|\[)', t['arg_tys'][0]):
             its = {F.term_str(x) for x in pv.of_operand(t['args'][1])}
             bases = {F.term_str(x) for x in pv.of_operand(t['args'][0])}
